@@ -517,7 +517,7 @@ class C06(SpecProp):
     def generate(self, rng, tier):
         hs = []
         if tier == "quick":
-            plan = [(30, 60)] * 28 + [(200, 6)]
+            plan = [(30, 15)] * 28 + [(200, 4)]
         else:
             plan = [(40, 3000), (300, 300), (1000, 60)]
         j = 0
